@@ -23,7 +23,7 @@ meta = {
    "clean_demo": "pass", "patched_existing_tests": "pass (338 incl. doctests)", "patched_demo": "fail",
    "patched_demo_log_tail": tail("v_patched_demo.log")},
  "checks_run": checks.split(","), "result": result, "note": note,
- "how_run": "tools/run_seeded.py seeded/%s/patch.diff %s  (git -C /repo apply; ./check.py <id> --tier quick; git -C /repo checkout -- .)" % (name, " ".join(checks.split(","))),
+ "how_run": "tools/seedlab.sh run seeded/%s/patch.diff %s (private copy of /repo and /verif); official form tools/run_seeded.py, see seeded/RESULTS.md" % (name, " ".join(checks.split(","))),
 }
 json.dump(meta, open(os.path.join(dst, "meta.json"), "w"), indent=1)
 print("kept", dst)
